@@ -438,7 +438,7 @@ var subScenario = vk.Register("scenario", checkScenario)
 
 func TestPropScenarios(t *testing.T) {
 	defer worker.Recycle()
-	vk.Rapid(t, subScenario, vk.N(200, 1500), genCase)
+	vk.Rapid(t, subScenario, vk.N(90, 1200), genCase)
 }
 
 func TestReplay(t *testing.T) {
